@@ -132,6 +132,14 @@ def check_input(input_data, y=None, preprocessor=None,
                              ensure_min_features=0, ensure_min_samples=0,
                              **{_ALL_FINITE: False})
   else:
+    if np.ndim(input_data) == 0 and not isinstance(input_data, (str, bytes)):
+      # check_X_y raises a TypeError for 0D data: report it like any other
+      # input with a wrong number of dimensions
+      if type_of_inputs == 'tuples':
+        make_error_input(420 if preprocessor is not None else 200,
+                         np.asarray(input_data), context)
+      make_error_input(320 if preprocessor is not None else 100,
+                       np.asarray(input_data), context)
     input_data, y = check_X_y(input_data, y, ensure_2d=False, allow_nd=True,
                               copy=False,
                               accept_sparse=True, dtype=None,
